@@ -32,6 +32,10 @@ pub struct GenCfg {
     pub fall_off: bool,
     /// use `exists` / `count_up_to` / `at_least` / ... / `query` on the module's facts
     pub facts: bool,
+    /// QUIRK (C24 hostile mode): struct literals that omit fields (accepted by the compiler)
+    pub quirk_partial_struct: bool,
+    /// QUIRK (C24 hostile mode): `None | Some(x)` / `Ok(x) | Err(e)` alternations
+    pub quirk_bind_alt: bool,
 }
 
 /// Statement context the generator works in (decides which never-typed expressions exist).
@@ -55,6 +59,8 @@ impl Default for GenCfg {
             fail_probe: false,
             fall_off: true,
             facts: false,
+            quirk_partial_struct: false,
+            quirk_bind_alt: false,
         }
     }
 }
@@ -264,6 +270,11 @@ pub fn gen_skeleton(rng: &mut Rng) -> Module {
         let extra: Vec<(String, Ty)> = m.structs[1].fields[n0..].to_vec();
         m.structs.push(StructDef { name: "S4".into(), fields: extra, insert_base: None, kind: StructKind::Plain });
     }
+    if rng.chance(1, 6) {
+        // a struct without fields (legal: `struct_def = "{" list? "}"`)
+        let n = format!("S{}", m.structs.len() + 1);
+        m.structs.push(StructDef { name: n, fields: vec![], insert_base: None, kind: StructKind::Plain });
+    }
     for g in 0..rng.urange(0, 2) {
         let t = loop {
             let t = any_ty(rng, &m, false, 1);
@@ -354,6 +365,25 @@ impl<'a> Cx<'a> {
                 return n;
             }
         }
+    }
+
+    pub fn visible_vars(&self) -> Vec<(String, Ty)> {
+        self.scopes.iter().flatten().cloned().collect()
+    }
+    pub fn push_scope(&mut self) {
+        self.push();
+    }
+    pub fn pop_scope(&mut self) {
+        self.pop();
+    }
+    pub fn bind_var(&mut self, n: &str, t: Ty) {
+        self.bind(n, t);
+    }
+    pub fn fresh(&mut self) -> String {
+        self.fresh_name()
+    }
+    pub fn can_produce(&self, t: &Ty) -> bool {
+        self.producible(t)
     }
 
     fn push(&mut self) {
@@ -510,6 +540,25 @@ impl<'a> Cx<'a> {
                 add_lits(self.rng, &mut arms, &mut lits, ks[..take].iter().map(|k| Val::Enum(*e, *k)).collect());
                 need_default = !all || self.rng.chance(1, 4);
             }
+            Ty::Opt(x) if self.cfg.quirk_bind_alt && self.rng.bool() => {
+                let n = self.fresh_name();
+                let mut items = vec![PatItem::Lit(Val::none()), PatItem::BindSome(n.clone())];
+                if self.rng.bool() {
+                    items.swap(0, 1);
+                }
+                arms.push((Pat::Vals(items), Some((n, (**x).clone()))));
+                need_default = self.rng.bool();
+            }
+            Ty::Res(a, _) if self.cfg.quirk_bind_alt && self.rng.bool() => {
+                let n = self.fresh_name();
+                let e = self.fresh_name();
+                let mut items = vec![PatItem::BindOk(n.clone()), PatItem::BindErr(e)];
+                if self.rng.bool() {
+                    items.swap(0, 1);
+                }
+                arms.push((Pat::Vals(items), Some((n, (**a).clone()))));
+                need_default = self.rng.bool();
+            }
             Ty::Opt(x) => {
                 let mut cands = vec![];
                 let none_first = self.rng.bool();
@@ -633,11 +682,12 @@ impl<'a> Cx<'a> {
             let st = self.scrutinee_ty();
             let s = self.expr(&st, d, false);
             let pats = self.patterns(&st);
+            let holes = has_hole(&s);
             let mut arms = vec![];
             for (p, b) in pats {
                 self.push();
                 if let Some((n, bt)) = b {
-                    self.bind(&n, bt);
+                    self.bind(&n, if holes { never_marker() } else { bt });
                 }
                 let e = self.expr(t, d, nv);
                 self.pop();
@@ -831,7 +881,8 @@ impl<'a> Cx<'a> {
                 for (n, vt) in sc {
                     if let Ty::Struct(o) = vt {
                         let of = &self.m.structs[*o].fields;
-                        if of.iter().all(|f| def.fields.contains(f)) {
+                        // `this` is a keyword, not an identifier: `...this` does not parse
+                        if n != "this" && of.iter().all(|f| def.fields.contains(f)) {
                             srcs.push((n.clone(), *o));
                         }
                     }
@@ -898,6 +949,10 @@ impl<'a> Cx<'a> {
         if self.rng.chance(1, 3) {
             self.rng.shuffle(&mut fs);
         }
+        if self.cfg.quirk_partial_struct && fs.len() > 1 && self.rng.chance(1, 3) {
+            let k = self.rng.usize(fs.len());
+            fs.remove(k);
+        }
         Expr::StructLit(s, fs, vec![])
     }
 
@@ -928,6 +983,9 @@ impl<'a> Cx<'a> {
                 let t = self.pick_ty();
                 let e = self.expr(&t, d, false);
                 let n = self.fresh_name();
+                // NB `let v = None` gives v the static type option[never]; that is kept on purpose
+                // (uses such as `v or 3`, `v is None` are valid); only bindings taken from it and
+                // then used structurally are rejected by the compiler - rare, counted as rejects.
                 self.bind(&n, t);
                 Stmt::Let(n, e)
             }
@@ -967,11 +1025,12 @@ impl<'a> Cx<'a> {
                 let st = self.scrutinee_ty();
                 let s = self.expr(&st, d, false);
                 let pats = self.patterns(&st);
+                let holes = has_hole(&s);
                 let mut arms = vec![];
                 for (p, b) in pats {
                     self.push();
                     if let Some((n, bt)) = b {
-                        self.bind(&n, bt);
+                        self.bind(&n, if holes { never_marker() } else { bt });
                     }
                     let body = self.stmt_list(d, 2, may_return);
                     self.pop();
@@ -1030,6 +1089,35 @@ fn add_lits(rng: &mut Rng, arms: &mut Vec<(Pat, Option<(String, Ty)>)>, lits: &m
     }
     if !cur.is_empty() {
         arms.push((Pat::Vals(cur), None));
+    }
+}
+
+/// Marker type for variables whose static type is `never` (bindings of a scrutinee whose
+/// type has holes, e.g. `match None { Some(x) => .. }`): never requested by the generator.
+pub fn never_marker() -> Ty {
+    Ty::res(Ty::res(Ty::Id, Ty::Id), Ty::Id)
+}
+
+fn val_has_hole(v: &Val) -> bool {
+    match v {
+        Val::Opt(None) | Val::Res(_) => true,
+        Val::Opt(Some(x)) => val_has_hole(x),
+        _ => false,
+    }
+}
+
+/// Does the compiler infer a type with `never` holes for this expression (approximation,
+/// erring on the side of "yes")?
+pub fn has_hole(e: &Expr) -> bool {
+    match e {
+        Expr::Lit(v) => val_has_hole(v),
+        Expr::Some(x) => has_hole(x),
+        Expr::Ok(_) | Expr::Err(_) | Expr::Todo | Expr::Return(_) | Expr::Recall(..) => true,
+        Expr::If(_, t, f) => has_hole(&t.1) || has_hole(&f.1),
+        Expr::Block(b) => has_hole(&b.1),
+        Expr::Match(_, arms) => arms.iter().any(|(_, x)| has_hole(x)),
+        Expr::Coalesce(a, b) => has_hole(a) || has_hole(b),
+        _ => false,
     }
 }
 
